@@ -94,6 +94,7 @@ struct SOpts {
   size_t sha1_salt_max = 64;
   bool allow_tail = true;
   int budget_ms = 60;
+  int realistic_cost_max = 0;  // > 0: also draw the documented gensalt cost parameters 1..max for (ye)scrypt
 };
 struct SGen {
   Bytes s;
@@ -264,6 +265,10 @@ inline SGen valid_setting(Method m, const SOpts &o) {
       s = "$7$";
       int nl = o.cheap ? (int)pick(2, 9) : (int)pick(2, 13);
       uint32_t rr = (uint32_t)pick(1, o.cheap ? 4 : 8), pp = (uint32_t)pick(1, 3);
+      if (o.realistic_cost_max >= 6 && coin(1, 4)) {
+        int c = (int)pick(6, o.realistic_cost_max);  // documented scrypt costs: N = 2^(c+7), r = 32, p = 1
+        nl = c + 7; rr = 32; pp = 1;
+      }
       s.push_back(A64[nl]);
       s += fixed30_encode(rr);
       s += fixed30_encode(pp);
@@ -303,6 +308,25 @@ inline SGen valid_setting(Method m, const SOpts &o) {
       if (fl != 2 && coin(1, 4)) {
         have |= 2;
         tt = (uint64_t)pick(1, 3);
+      }
+      // parameter sets real deployments use: the costs crypt_gensalt(3) documents (count c: N = 2^(c+9), r = 8 for
+      // c <= 2, N = 2^(c+7), r = 32 above), and N*r around the 2^17 blocks (16 MiB) where yescrypt starts to pre-hash
+      int real = o.realistic_cost_max > 0 ? wpick({6, 2, 2}) : 0;
+      if (real == 1) {
+        int c = (int)pick(1, o.realistic_cost_max);
+        nl = c <= 2 ? c + 9 : c + 7;
+        rr = c <= 2 ? 8 : 32;
+        pp = 1; tt = 0; have = 0;
+        cls += "/gensalt-cost" + std::to_string(c);
+      } else if (real == 2) {
+        nl = (int)pick(12, 17);
+        rr = 1ULL << (17 - nl);
+        int d = wpick({4, 1, 1});
+        if (d == 1 && rr > 1) rr -= 1;
+        if (d == 2) rr += 1;
+        if (have & 1) pp = 2;
+        tt = 0; have &= 1;
+        cls += "/prehash-threshold";
       }
       if (fl == 0) {
         // RW needs N/p > 3
